@@ -168,6 +168,18 @@ CLAIMED.update({
         technique='symbolic execution of rustc MIR with z3 on fabricated VM states (one harness per procedure and arity), native replay incl. time-limited hang confirmation', design='4/C06'),
 })
 
+CLAIMED.update({
+    'C10': dict(
+        text='Exact data only: `impl Display for Cell` in write mode, char::write_escaped_char and `impl Display for Number` executed from MIR on a datum of a fixed, stated shape '
+             '(leaves, lists, dotted lists, vectors, quote forms, nesting to depth 3, thorough 4) whose leaves are solver variables (any Unicode scalar value as a character and inside '
+             'strings of up to 2 chars, any i64, bignums up to 2^66, rationals over a denominator palette, booleans); the produced text goes through the real lex::scan and '
+             'parse::parse_text. Claims per path: the datum read back is structurally equal with equal leaves and nothing is left over; writing it again yields the same text; '
+             'Heap::get_as_cell(Heap::put_cell(d)) = d. Symbols: every text of up to 3 (thorough 4) symbolic chars that the reader turns into one symbol is written and read back.',
+        note='Shapes are enumerated (stated per harness in the evidence); the solver decides the leaf obligations. Inexact numbers are outside (see C16). The trip through the '
+             'evaluator is reduced to put_cell / get_as_cell (compilation of (quote d) and the run loop are not executed).',
+        technique='symbolic execution of rustc MIR with z3 (printer -> lexer -> parser on symbolic-length texts), native replay', design='4/C10'),
+})
+
 NOT_APPLICABLE = {
     'C01': 'whole-pipeline property over arbitrary programs (reader -> syntax-rules prelude -> compiler -> VM): no engine here can push a symbolic program through it; enumerating program shapes would be testing, not solver work (DESIGN.md section 5)',
     'C02': 'scoping is a relation between compile-time environment maps and run-time environment chains across nested activations of whole programs; the only solver-sized kernel restates the code (DESIGN.md section 5)',
